@@ -285,6 +285,8 @@ def call_view(d, x, v, kind, use_method):
             # TTTensor / TRTensor / TTMatrix name the method to_unfolding
             meth = getattr(x, "to_unfolding", None) or x.to_unfolded
             return lambda: meth(v[1])
+    if n == "norm" and k != "cp":
+        return lambda: x.norm()   # FactorizedTensor.norm (wrapper objects only): l2 norm of to_tensor()
     if k == "cp":
         if n == "tensor": return (lambda: cp.cp_to_tensor(x, mask=np.array(d["mask"], dtype=np.float64))) if d.get("mask") is not None else (lambda: cp.cp_to_tensor(x))
         if n == "unfolded": return lambda: cp.cp_to_unfolded(x, v[1])
@@ -331,17 +333,17 @@ def views_of(d, malformed):
         order = len(d["fs"])
         vs = [("tensor",), ("vec",)] + [("unfolded", m) for m in range(order + (0 if malformed else 1))]
         if not (d.get("skip") is not None or d.get("tr")):
-            vs = [("validate",)] + vs
+            vs = [("validate",)] + vs + ([] if malformed else [("norm",)])
         return vs
     if k in ("tt", "tr"):
         order = len(d["cores"])
-        return [("validate",), ("tensor",), ("vec",)] + [("unfolded", m) for m in range(order + (0 if malformed else 1))]
+        return [("validate",), ("tensor",), ("vec",)] + [("unfolded", m) for m in range(order + (0 if malformed else 1))] + ([] if malformed else [("norm",)])
     if k == "ttm":
         order = 2 * len(d["cores"])
-        return [("validate",), ("tensor",), ("matrix",), ("vec",)] + [("unfolded", m) for m in range(order + (0 if malformed else 1))]
+        return [("validate",), ("tensor",), ("matrix",), ("vec",)] + [("unfolded", m) for m in range(order + (0 if malformed else 1))] + ([] if malformed else [("norm",)])
     if k == "p2":
         n = len(d["ps"])
-        return [("validate",), ("tensor",), ("slices",), ("vec",)] + [("slice", i) for i in range(min(n, 3))] + [("unfolded", m) for m in range(3)]
+        return [("validate",), ("tensor",), ("slices",), ("vec",), ("norm",)] + [("slice", i) for i in range(min(n, 3))] + [("unfolded", m) for m in range(3)]
 
 
 def run_routes(d, rng, malformed=False, backends=("core", "einsum")):
@@ -379,6 +381,8 @@ def run_routes(d, rng, malformed=False, backends=("core", "einsum")):
                 for step, v in enumerate(seq):
                     if kind == "tuple" and d["kind"] == "cp" and d.get("onedim") and v[0] != "validate":
                         continue
+                    if kind == "tuple" and v[0] == "norm" and d["kind"] != "cp":
+                        continue  # only the wrapper objects have a norm outside CP
                     res = C.call_impl(call_view(d, x, v, kind, use_method=(step % 2 == 0)), timeout=30)
                     if res == ("crash", "timeout"):  # loaded machine: never a verdict, only a skipped observation
                         SKIPPED["timeouts"] += 1
@@ -530,6 +534,10 @@ def gen_malformed(tier, rng):
         yield dict(kind="cp", w=None, fs=bad, why="mismatched ranks")
         yield dict(kind="cp", w=np.ones(R, dtype=np.int64), fs=bad, why="mismatched ranks")
         yield dict(kind="cp", w=rint(rng, (R + 1,)), fs=fs, why="weights of the wrong length")
+        if R >= 2:
+            jj = rng.randrange(1, o); badm = list(fs); badm[jj] = rint(rng, (s[jj], R - 1))
+            yield dict(kind="cp", w=None, fs=badm, why="mismatched ranks (a later factor has fewer columns)")
+            yield dict(kind="cp", w=rint(rng, (R - 1,)), fs=fs, why="weights too short")
         yield dict(kind="cp", w=rint(rng, (R, 1)), fs=fs, why="2-D weights", views=V)
         bad3 = list(fs); bad3[j] = rint(rng, (s[j], R, 1))
         yield dict(kind="cp", w=None, fs=bad3, why="3-D factor", views=V)
@@ -540,6 +548,9 @@ def gen_malformed(tier, rng):
         core = rint(rng, rk); tf = [rint(rng, (n, r)) for n, r in zip(s, rk)]
         badt = list(tf); badt[j] = rint(rng, (s[j], rk[j] + 1))
         yield dict(kind="tucker", core=core, fs=badt, why="factor columns differ from the core size")
+        if rk[j] >= 2:
+            badt2 = list(tf); badt2[j] = rint(rng, (s[j], rk[j] - 1))
+            yield dict(kind="tucker", core=core, fs=badt2, why="factor has fewer columns than the core size")
         yield dict(kind="tucker", core=core, fs=tf + [rint(rng, (2, 2))], why="more factors than core modes")
         yield dict(kind="tucker", core=core, fs=tf[:-1], why="fewer factors than core modes", views=V)
         yield dict(kind="tucker", core=rint(rng, (rk[0],)), fs=[tf[0]], why="a single factor", views=V)
@@ -554,6 +565,8 @@ def gen_malformed(tier, rng):
         if o >= 2:
             cs = mkc(rk); i = rng.randrange(o - 1)
             cs[i] = rint(rng, (rk[i], s[i], rk[i + 1] + 1)); yield dict(kind="tt", cores=cs, why="consecutive ranks differ")
+            if rk[i + 1] >= 2:
+                cs = mkc(rk); cs[i] = rint(rng, (rk[i], s[i], rk[i + 1] - 1)); yield dict(kind="tt", cores=cs, why="consecutive ranks differ (smaller)")
         cs = mkc(rk); i = rng.randrange(o); cs[i] = rint(rng, (rk[i], s[i])); yield dict(kind="tt", cores=cs, why="2-D core", views=V)
         cs = mkc(rk); cs[i] = rint(rng, (rk[i], s[i], 1, rk[i + 1])); yield dict(kind="tt", cores=cs, why="4-D core", views=V)
         # --- TR
@@ -563,6 +576,8 @@ def gen_malformed(tier, rng):
         b = list(rk); b[0] = r0 + 1; yield dict(kind="tr", cores=mkc(b), why="ring not closed")
         cs = mkc(rk); i = rng.randrange(o - 1); cs[i] = rint(rng, (rk[i], s[i], rk[i + 1] + 1)); yield dict(kind="tr", cores=cs, why="consecutive ranks differ")
         yield dict(kind="tr", cores=[rint(rng, (r0, s[0], r0))], why="a single core")
+        if r0 >= 2:
+            b = list(rk); b[-1] = r0 - 1; yield dict(kind="tr", cores=mkc(b), why="ring not closed (last rank smaller)")
         cs = mkc(rk); cs[i] = rint(rng, (rk[i], s[i])); yield dict(kind="tr", cores=cs, why="2-D core", views=V)
         # --- TT-matrix (the einsum backend sums over open boundary ranks instead of failing: only the validators are compared)
         n = rng.randint(1, 2); ins = [rng.randint(1, 2) for _ in range(n)]; outs = [rng.randint(1, 3) for _ in range(n)]
@@ -584,6 +599,8 @@ def gen_malformed(tier, rng):
         if R >= 2:
             bad = [p.copy() for p in ps]; bad[i][:, 1] = bad[i][:, 0]
             yield dict(kind="p2", w=None, fs=[A, B, Cm], ps=bad, why="non-orthonormal projection (repeated column)", views=P2V)
+        bad = [p.copy() for p in ps]; bad[i][:, rng.randrange(R)] = 0
+        yield dict(kind="p2", w=None, fs=[A, B, Cm], ps=bad, why="non-orthonormal projection (zero column: P^T P - I has a -1)", views=P2V)
         bad = [p.copy() for p in ps]; bad[i] = 2 * bad[i]
         yield dict(kind="p2", w=None, fs=[A, B, Cm], ps=bad, why="non-orthonormal projection (scaled)", views=P2V)
         yield dict(kind="p2", w=None, fs=[A, B, Cm], ps=ps + [ps[0]], why="one projection too many", views=P2V)
@@ -697,7 +714,9 @@ FN = {("cp", "validate"): "_validate_cp_tensor", ("cp", "tensor"): "cp_to_tensor
       ("tr", "tensor"): "tr_to_tensor", ("tr", "unfolded"): "tr_to_unfolded", ("tr", "vec"): "tr_to_vec", ("ttm", "validate"): "_validate_tt_matrix",
       ("ttm", "tensor"): "tt_matrix_to_tensor", ("ttm", "matrix"): "tt_matrix_to_matrix", ("ttm", "unfolded"): "tt_matrix_to_unfolded",
       ("ttm", "vec"): "tt_matrix_to_vec", ("p2", "validate"): "_validate_parafac2_tensor", ("p2", "tensor"): "parafac2_to_tensor",
-      ("p2", "unfolded"): "parafac2_to_unfolded", ("p2", "vec"): "parafac2_to_vec", ("p2", "slice"): "parafac2_to_slice", ("p2", "slices"): "parafac2_to_slices"}
+      ("p2", "unfolded"): "parafac2_to_unfolded", ("p2", "vec"): "parafac2_to_vec", ("p2", "slice"): "parafac2_to_slice", ("p2", "slices"): "parafac2_to_slices",
+      ("tucker", "norm"): "TuckerTensor.norm", ("tt", "norm"): "TTTensor.norm", ("tr", "norm"): "TRTensor.norm", ("ttm", "norm"): "TTMatrix.norm",
+      ("p2", "norm"): "Parafac2Tensor.norm"}
 
 
 def epname(d, v):
